@@ -1,5 +1,8 @@
 #include "mpi_dispatcher/mpi_dispatcher.hpp"
 #include <numeric>
+#ifdef POMEROL_VERIF
+#include "mpi_dispatcher/verif_hooks.hpp"
+#endif
 
 namespace pMPI {
 
@@ -35,6 +38,9 @@ void MPIWorker::receive_order()
     boost::optional<boost::mpi::status> st = req.test();
     if(st) {
         Status = pMPI::WorkerTag(boost::get(st).tag());
+#ifdef POMEROL_VERIF
+        pMPI::verif::event("recv_order", (long)Status, (long)current_job_);
+#endif
         req = Comm.irecv(boss, MPI_ANY_TAG, current_job_);
         if(is_finished()) req.cancel();
     }
@@ -42,6 +48,9 @@ void MPIWorker::receive_order()
 
 void MPIWorker::report_job_done()
 {
+#ifdef POMEROL_VERIF
+    pMPI::verif::event("send_done", (long)current_job_, (long)id);
+#endif
     Comm.send(boss, int(pMPI::Pending));
     Status = pMPI::Pending;
 }
@@ -127,7 +136,13 @@ MPIMaster::MPIMaster(const boost::mpi::communicator &comm, std::vector<JobId> ta
 
 void MPIMaster::order_worker(WorkerId worker, JobId job)
 {
+#ifdef POMEROL_VERIF
+    pMPI::verif::event("send_work", (long)job, (long)worker);
+#endif
     Comm.send(worker,int(pMPI::Work),job);
+#ifdef POMEROL_VERIF
+    pMPI::verif::delay(6);
+#endif
     //DEBUG(id << "->" << worker << " tag: work",MPI_DEBUG_VERBOSITY,1);
     DispatchMap[job]=worker;
     wait_statuses[WorkerIndices[worker]] = Comm.irecv(worker,int(pMPI::Pending));
@@ -148,12 +163,19 @@ void MPIMaster::check_workers()
 {
     for (size_t i=0; i<Nprocs; i++) {
         if (wait_statuses[i].test()) {
+#ifdef POMEROL_VERIF
+            pMPI::verif::event("worker_idle", (long)worker_pool[i], (long)WorkerStack.size());
+#endif
             WorkerStack.push(worker_pool[i]);
             };
     };
     if (JobStack.empty() && WorkerStack.size() >= Nprocs) {
         for (size_t i=0; i<Nprocs; i++) {
             if (!workers_finish[i]) {
+#ifdef POMEROL_VERIF
+                pMPI::verif::delay(7);
+                pMPI::verif::event("send_finish", (long)worker_pool[i]);
+#endif
                 //DEBUG(id << "->" << worker_pool[i] << " tag: finish",MPI_DEBUG_VERBOSITY,1);
                 Comm.send(worker_pool[i], int(pMPI::Finish));
                 workers_finish[i] = true; // to prevent double sending of Finish command that could overlap with other communication
